@@ -329,10 +329,10 @@ func (l *Location) key() locationKey {
 	lines := make([]string, len(l.Line)*3)
 	for i, line := range l.Line {
 		if line.Function != nil {
-			lines[i*2] = strconv.FormatUint(line.Function.ID, 16)
+			lines[i*3] = strconv.FormatUint(line.Function.ID, 16)
 		}
-		lines[i*2+1] = strconv.FormatInt(line.Line, 16)
-		lines[i*2+2] = strconv.FormatInt(line.Column, 16)
+		lines[i*3+1] = strconv.FormatInt(line.Line, 16)
+		lines[i*3+2] = strconv.FormatInt(line.Column, 16)
 	}
 	key.lines = strings.Join(lines, "|")
 	return key
